@@ -442,6 +442,14 @@ func report(o *Options, eng *Engine, results []*unitResult, obls, probes []*Obl,
 			samples = append(samples, map[string]any{"obligation": ob.Name, "kind": ob.Kind, "pos": ob.Pos, "status": ob.Res.Status, "solver": ob.Res.Solver, "time_s": round2(ob.Res.TimeS), "bounded": ob.Bound})
 		}
 	}
+	// obligations that needed a large share of the limit: candidates for instability (printed, and kept in the evidence)
+	var slow []map[string]any
+	for _, ob := range obls {
+		if ob.Res.Status == "unsat" && ob.Res.TimeS > 6 {
+			slow = append(slow, map[string]any{"obligation": ob.Name, "solver": ob.Res.Solver, "time_s": round2(ob.Res.TimeS)})
+			fmt.Fprintf(os.Stderr, "SLOW %6.2fs %-16s %s\n", ob.Res.TimeS, ob.Res.Solver, ob.Name)
+		}
+	}
 	exit := 0
 	violations := 0
 	var knownHit []string
@@ -566,6 +574,7 @@ func report(o *Options, eng *Engine, results []*unitResult, obls, probes []*Obl,
 		"vacuity_probes":           map[string]any{"run": len(probes), "vacuous_functions": vacuous, "unreachable_returns": unreachable},
 		"known_findings":           knownHit,
 		"load_s":                   round2(eng.loadS),
+		"slow_obligations":         slow,
 		"explanation":              fmt.Sprintf("%d unbounded and %d bounded obligations generated from the go/ssa form of %d functions under contract in /repo's working tree; each is an SMT query (negated goal under path condition and callee contracts) that must be unsat", nUnb, nB, len(funcs)),
 	}
 	_ = nKnown
